@@ -56,16 +56,16 @@ CLAIMED.update({
 
 CLAIMED.update({
  "C04": dict(
-   text="Totality and determinism of decoding decided from the tables and the shape of amd/insts: the format table (mask/encoding consistency, overlap and specificity order, opcode fields) which makes format matching independent of map order and sort stability; the decode table of about 1000 rows evaluated from constant expressions (duplicates, field widths, VOP3b routing, dispatch coverage); every getOperand call site against the computed set of defined operand codes using an interval analysis of the code argument; per-format bounds of every buffer access; size accounting incl. the single literal dword shared by two literal operands and an opcode-specific size step for every mnemonic that carries a 32-bit constant; immutability of the decode tables on the decode path; register families of getOperand covered completely; the single-bit helper; error handling at the three callers. The inverse property decode(encode(d)) = d is value level and not decided.",
+   text="Totality and determinism of decoding decided from the tables and the shape of amd/insts: the format table (mask/encoding consistency, overlap and specificity order, opcode fields) which makes format matching independent of map order and sort stability; the decode table of about 1000 rows evaluated from constant expressions (duplicates, field widths, VOP3b routing, dispatch coverage); every getOperand call site against the computed set of defined operand codes using an interval analysis of the code argument; per-format bounds of every buffer access; size accounting incl. the single literal dword shared by two literal operands and an opcode-specific size step for every mnemonic that carries a 32-bit constant; immutability of the decode tables on the decode path; register families of getOperand covered completely; the single-bit helper; a nil test before a lazily created decode table is dereferenced; destination fields that cannot hold constants; the key of every decode cache covering all arguments that select the bytes read (address and process); error handling at the three callers. The inverse property decode(encode(d)) = d is value level and not decided.",
    ref="4/C04", technique="constant-table evaluation from the type-checked syntax (TABLE), interval analysis on SSA (INTERVAL), dominance cuts (GUARD), decision-table evaluation of getOperand's switch",
-   note="field extraction positions versus the ISA manuals are not compared; six genuine defects (dropped getOperand errors, unguarded buf[:4], literal dword counted twice in SOP2/SOPC, ttmp11 rejected, GDS bit taken from bit 4, s_setreg_imm32_b32 sized 4 bytes) found and repaired by fix: commits"),
+   note="field extraction positions versus the ISA manuals are not compared; nine genuine defects (dropped getOperand errors, unguarded buf[:4], literal dword counted twice in SOP2/SOPC, ttmp11 rejected, GDS bit taken from bit 4, s_setreg_imm32_b32 sized 4 bytes, constants accepted as destinations, v_madak/v_madmk with a literal sized 12 bytes, emulator decode cache keyed by address only) found and repaired by fix: commits"),
 })
 
 CLAIMED.update({
  "C07": dict(
-   text="Aliasing shapes of the register stores decided statically in all five accessors of both modes: half-register merges keep exactly the other half (mask == ^(0xffffffff << shift)) and use the shift of their LO/HI context, half reads use the same shift, the (register kind, count) coverage of the accessors is evaluated as decision tables and compared as siblings against the set of special registers the decoder produces, vector-register strides of emulation equal those of the timing register file and its builder constants, the multi-register width rule is uniform, and register release clears only the wavefront's own ranges. Read-after-write equality over all sequences is value level and not decided.",
+   text="Aliasing shapes of the register stores decided statically in all five accessors of both modes: half-register merges keep exactly the other half (mask == ^(0xffffffff << shift)) and use the shift of their LO/HI context, half reads use the same shift, the (register kind, count) coverage of the accessors is evaluated as decision tables and compared as siblings against the set of special registers the decoder produces, vector-register strides of emulation equal those of the timing register file and its builder constants, the multi-register width rule is uniform, the decoder's register count 0 behaves as count 1 in every accessor (effect traces compared), WriteOperand hands exactly operand-width bytes to the register file, and register release clears only the wavefront's own ranges. Read-after-write equality over all sequences is value level and not decided.",
    ref="4/C07", technique="SSA pattern rules with dominance context (GUARD), decision-table evaluation of sibling accessors (SIBLINGS), constant agreement (TABLE), value provenance",
-   note="register index bounds and allocation offsets not decided; two defects (VCCHI mask, missing EXEC halves) found and repaired by fix: commits"),
+   note="register index bounds and allocation offsets not decided; three defects (VCCHI mask, missing EXEC halves, eight emulator accessors ignoring register count 0) found and repaired by fix: commits"),
 })
 
 CLAIMED.update({
@@ -77,9 +77,9 @@ CLAIMED.update({
 
 CLAIMED.update({
  "C03": dict(
-   text="ISA rules that are uniform across opcodes and visible in the code shape, for both ALUs and all paths: dispatch integrity of every opcode switch (one handler per case, panicking default, listed functional no-ops only), ALL-OR-NONE of condition-code writes in every handler, shift-amount intervals in every handler of a shift instruction (handlers tied to instruction names through decode table, dispatch switch and callee), destination-only operand writes and PC/EXEC writers restricted by instruction name, carry predicates of carry-in instructions evaluated in 64 bits, every float-to-integer conversion of an operand value reached only after range tests on the floating-point value (and no clamp that the operand's type makes dead), no result variable left at its zero value by an open if/else-if chain; every compare handler decided exactly on the ordering domain {less, equal, greater, unordered} against the truth table its mnemonic prescribes, with kind / signedness / width of the compared values; LDS handlers address ADDR plus their (scaled) offset field. Bit-exact arithmetic conformance needs an executable ISA transcription and is not decided.",
+   text="ISA rules that are uniform across opcodes and visible in the code shape, for both ALUs and all paths: dispatch integrity of every opcode switch (one handler per case, panicking default, listed functional no-ops only), ALL-OR-NONE of condition-code writes in every handler, shift-amount intervals in every handler of a shift instruction (handlers tied to instruction names through decode table, dispatch switch and callee), destination-only operand writes and PC/EXEC writers restricted by instruction name, carry predicates of carry-in instructions evaluated in 64 bits, every float-to-integer conversion of an operand value reached only after range tests on the floating-point value (and no clamp that the operand's type makes dead), no result variable left at its zero value by an open if/else-if chain; every compare handler decided exactly on the ordering domain {less, equal, greater, unordered} against the truth table its mnemonic prescribes, with kind / signedness / width of the compared values; LDS handlers address ADDR plus their (scaled) offset field; bitwise handlers decided exactly by per-bit truth tables; operand selection of integer min/max, polarity of cndmask/cselect/cmov and of conditional branches with their target formula, operand order of sub/subrev and shift/shiftrev pairs; sources read before destinations are written; bits 32..63 of a raw operand never decide the result of a 32-bit instruction; SCC of signed add/sub from the signed overflow condition; IEEE bit patterns never used as numbers. Bit-exact arithmetic conformance needs an executable ISA transcription and is not decided.",
    ref="4/C03", technique="constant-table evaluation (decode table and dispatch switches), must-pass path analysis (ALL-OR-NONE), interval analysis on SSA (INTERVAL), who-may-write, finite-domain evaluation of comparison skeletons (ORDER-DOMAIN), value provenance of addresses",
-   note="arithmetic, rounding, saturation and comparison semantics of individual opcodes are not decided; defect families found and repaired by fix: commits: one-sided SCC, unmasked shifts, v_cvt_i32_f32 saturation tested after conversion, v_div_scale_f64 default result and denormal classification, compare handlers (lg/nlg NaN, u32 width, CDNA3 ge_f32_e64), ds_read_b64 offset"),
+   note="arithmetic, rounding, saturation and comparison semantics of individual opcodes are not decided; defect families found and repaired by fix: commits: one-sided SCC, unmasked shifts, v_cvt_i32_f32 saturation tested after conversion, v_div_scale_f64 default result and denormal classification, compare handlers (lg/nlg NaN, u32 width, CDNA3 ge_f32_e64), ds_read_b64 offset, 20 handlers of 32-bit instructions reading 64 operand bits, s_addc_u32 carry, s_cmpk compares; known findings pinned by upstream tests: GCN3 s_add_i32 SCC, v_div_fixup_f64 using bit patterns as numbers (14 sites)"),
 })
 
 CLAIMED.update({
@@ -91,7 +91,7 @@ CLAIMED.update({
 
 CLAIMED.update({
  "C10": dict(
-   text="Structural clauses of device memory management on all paths: a lockset analysis of the allocator (every field access under the embedded mutex; helpers reached only from lock-holding call sites), pairing of every page-table write with the allocator's vAddr mirror plus who-may-write the page table, physical addresses taken only from the device memory state, no container mutated while ranged in the driver packages, page-granular cursor and size arithmetic, Free looping over exactly the page count recorded at allocation with a one-page stride, the key shape of the allocator's page maps (process + virtual address), every page's DeviceID derived from its own physical address, release of the previous physical page when a virtual page is re-homed, and the buddy allocator's parent merge bit flipped for every block taken from a free list. Invariants over allocate/free/remap histories are state-machine properties and are not decided.",
+   text="Structural clauses of device memory management on all paths: a lockset analysis of the allocator (every field access under the embedded mutex; helpers reached only from lock-holding call sites), pairing of every page-table write with the allocator's vAddr mirror plus who-may-write the page table, physical addresses taken only from the device memory state and returned to it only as the freed page's own address, no container mutated while ranged in the driver packages, page-granular cursor and size arithmetic, Free looping over exactly the page count recorded at allocation with a one-page stride, the key shape of the allocator's page maps (process + virtual address), every page's DeviceID derived from its own physical address, release of the previous physical page when a virtual page is re-homed, and the buddy allocator's parent merge bit flipped for every block taken from a free list. Invariants over allocate/free/remap histories are state-machine properties and are not decided.",
    ref="4/C10", technique="lockset dataflow with call-site propagation (guarded-by), PAIR and who-may-write on SSA, syntactic range-mutation rule, value provenance of cursor arithmetic",
    note="disjointness of live physical pages over histories and the buddy allocator's internal state are not decided; five defects (stale mirror entry on free, mutate-while-ranging in removeFreedBuffers, Free releasing only the first page, remapped pages recorded on a unified device, buddy merge bit) repaired by fix: commits; three known findings (mirror keyed without the PID; old physical page leaked by Remap and by migration)"),
 })
@@ -105,16 +105,16 @@ CLAIMED.update({
 
 CLAIMED.update({
  "C14": dict(
-   text="Structural clauses of execution ordering in the timing compute unit and the emulator's barrier resolution, on all paths: completion only with both outstanding-access counters at zero, the scalar/LGKM and vector/VM comparison pairs of the wait count, increment sites and caller-propagated last-piece guarding of every counter decrement, accepted-state sets of the barrier predicates evaluated as decision tables and compared with {at barrier, completed}, barrier release only under those predicates, work-group completion message only when all other wavefronts completed with resources released only after a successful send. The issue-trace ordering under all latencies is a schedule property and is not decided.",
+   text="Structural clauses of execution ordering in the timing compute unit and the emulator's barrier resolution, on all paths: completion only with both outstanding-access counters at zero, the scalar/LGKM and vector/VM comparison pairs of the wait count, increment sites and caller-propagated last-piece guarding of every counter decrement, accepted-state sets of the barrier predicates evaluated as decision tables and compared with {at barrier, completed}, barrier release only under those predicates and, at every caller (s_barrier and s_endpgm), purging exactly the released wavefronts from the waiting list, work-group completion message only when all other wavefronts completed with resources released only after a successful send. The issue-trace ordering under all latencies is a schedule property and is not decided.",
    ref="4/C14", technique="dominance cuts with phi-fact pruning (GUARD), decision-table evaluation of sibling predicates (SIBLINGS), who-may-write, SSA path analysis (SEND-DISCIPLINE)",
-   note="scoreboard hazards, SIMM16 field ranges and memory-latency schedules are not decided; one defect (completed wavefronts not counted as arrived at a barrier, both modes) found and repaired by a fix: commit"),
+   note="scoreboard hazards, SIMM16 field ranges and memory-latency schedules are not decided; two defects (completed wavefronts not counted as arrived at a barrier, both modes; waiting list not purged when an ending wavefront releases the barrier) found and repaired by fix: commits"),
 })
 
 CLAIMED.update({
  "C02": dict(
-   text="Five necessary conditions of functional transparency of timing mode, decided structurally: architectural state of timing wavefronts is changed only through the shared emulation ALU (who-may-call with a frozen allow-list; ALU obtained only from emu.NewALU or the injected factory); the initial-register code of the two modes is reduced to comparable summaries (enable flag, bytes reserved, value; lane-id registers incl. the V5 packed form); the SMEM and FLAT opcode sets of both ALUs and of the timing units agree, including, for sub-dword loads, the number of memory bytes that reach the register and their sign/zero extension in the timing write-back versus the emulation handler; cache flushes precede copies that touch dirty buffers; the timing-only outstanding-access counters are decremented only through the last-piece test of a memory return (in the function or all its callers). Equality of final memory and PC traces is a runtime quantity and is not decided.",
+   text="Seven necessary conditions of functional transparency of timing mode, decided structurally: architectural state of timing wavefronts is changed only through the shared emulation ALU (who-may-call with a frozen allow-list; ALU obtained only from emu.NewALU or the injected factory); the initial-register code of the two modes is reduced to comparable summaries (enable flag, bytes reserved, value; lane-id registers incl. the V5 packed form); the SMEM and FLAT opcode sets of both ALUs and of the timing units agree, including, for sub-dword loads, the number of memory bytes that reach the register and their sign/zero extension in the timing write-back versus the emulation handler; cache flushes precede copies that touch dirty buffers; the timing-only outstanding-access counters are decremented only through the last-piece test of a memory return (in the function or all its callers); the pieces of a split scalar load land in consecutive registers; the kernel-launch path reaches a flush of the non-coherent per-CU L1 caches. Equality of final memory and PC traces is a runtime quantity and is not decided.",
    ref="4/C02", technique="who-may-call on SSA, summaries of sibling functions from the type-checked syntax (SIBLINGS), opcode-set comparison of dispatch switches (TABLE), must-pass path analysis",
-   note="coalescer and write-back value correctness, scoreboard hazards, caches and DRAM are not decided; four defects (s_load_dwordx16, flat_load_sbyte and flat_load_ushort write-back, V5 packed ids in timing) repaired by fix: commits; two SGPR-reservation divergences recorded as known findings"),
+   note="coalescer and write-back value correctness, scoreboard hazards, caches and DRAM are not decided; four defects (s_load_dwordx16, flat_load_sbyte and flat_load_ushort write-back, V5 packed ids in timing) repaired by fix: commits; two SGPR-reservation divergences and the missing L1 flush between kernels (bitonicsort fails in timing mode) recorded as known findings"),
 })
 
 CLAIMED.update({
